@@ -189,6 +189,173 @@ Proof.
 Qed.
 
 (* ==================================================================================================================
+   CONTAINER OBJECTS (Model/RombergContainers.v).  The Python keeps the container interval as attributes left_point /
+   right_point (with max_level, minimal_step_width) that only append_slice updates, and get_final_weights of a container
+   builds its weight factory from these ATTRIBUTES.  Modelled: __init__, append_slice, __initialize_default_containers with
+   the step-width buffer, adjust_containers (all groupings), split_into_containers_with_power_two_sizes (while loop with
+   slices.pop(0)), find_closest_power_below (for loop), get_final_weights reading the attributes. *)
+From SG Require Import Model.RombergContainers Proofs.RombergContainers.
+
+(* --- the invariant of append_slice, for EVERY history of appends: a fresh container after its first append, and every
+       further append, has left_point = left end of its first slice, right_point = right end of its last slice,
+       max_level = max over its slices, minimal_step_width = min over its slices *)
+Theorem C11_container_append_keeps_endpoints : forall c s, cont_ok c -> cont_ok (cont_append c s).
+Proof. exact cont_append_ok. Qed.
+Theorem C11_container_first_append : forall s, cont_ok (cont_single s).
+Proof. exact cont_single_ok. Qed.
+(* --- EVERY container that set_grid leaves in slice_containers (every grid, every grouping: grouping loop, unit split,
+       power-of-two split) carries the end points of its slices; the slices of the containers are those of the list model *)
+Theorem C11_container_endpoints : forall g slices, Forall cont_ok (obj_adjust g (obj_initial_containers g slices)).
+Proof. exact obj_containers_ok. Qed.
+Theorem C11_container_slices : forall g slices,
+  map c_slices (obj_adjust g (obj_initial_containers g slices)) = adjust_containers g (initial_containers g slices).
+Proof. exact obj_containers_slices. Qed.
+Print Assumptions C11_container_endpoints.
+Print Assumptions C11_container_slices.
+(* --- find_closest_power_below (the for loop over range(n) with the two tests) returns the largest power of two <= n *)
+Theorem C11_find_closest_power_below : forall n, (1 <= n)%nat ->
+  is_power2 (find_closest_power_below n) /\ (find_closest_power_below n <= n < 2 * find_closest_power_below n)%nat.
+Proof. exact fcpb_spec. Qed.
+Print Assumptions C11_find_closest_power_below.
+(* --- the pipeline on container objects (weight factories built from the attributes) returns EXACTLY the result of the
+       list-level model, for all inputs; hence every theorem above about extrapolation_grid_from holds for it *)
+Theorem C11_object_pipeline_is_model : forall lo g sv cv force grid levels,
+  option_map fst (extrapolation_grid_obj_from lo g sv cv force grid levels) = extrapolation_grid_from lo g sv cv force grid levels.
+Proof. exact obj_pipeline_is_model. Qed.
+Theorem C11_object_pipeline_containers : forall lo g sv cv force grid levels r cs,
+  extrapolation_grid_obj_from lo g sv cv force grid levels = Some (r, cs) ->
+  extrapolation_grid_from lo g sv cv force grid levels = Some r /\
+  Forall cont_ok cs /\ map (fun c => length (c_slices c)) cs = er_container_sizes r /\
+  concat (map c_slices cs) = match init_grid_slices (er_grid r) (er_levels r) with Some sl => sl | None => [] end.
+Proof. exact obj_pipeline_containers. Qed.
+Theorem C11_object_pipeline_weights_consistent : forall lo g sv force grid levels r cs,
+  extrapolation_grid_obj_from lo g sv CV_Default force grid levels = Some (r, cs) ->
+  sumQ (er_weights r) = grid_b r - grid_a r /\ wmom (er_dict r) = half_sq (grid_a r) (grid_b r).
+Proof. exact obj_sliced_weights_consistent. Qed.
+Print Assumptions C11_object_pipeline_is_model.
+Print Assumptions C11_object_pipeline_containers.
+Print Assumptions C11_object_pipeline_weights_consistent.
+(* --- the variant of the split that keeps the ORIGINAL container object for the last block (left_point not refreshed)
+       violates the invariant: witness = six slices of width 1/8 on [1/4, 1] (blocks 4 + 2) *)
+Theorem C11_split_reuse_refuted :
+  cont_ok six /\ exists c', In c' (obj_split_reuse (length (c_slices six)) six) /\ c_left c' <> Some (container_left (c_slices c')).
+Proof. exact split_reuse_refuted. Qed.
+Print Assumptions C11_split_reuse_refuted.
+(* non-vacuity: the grid of the seeded change (complete depth-3 grid without 1/8): GROUPED_OPTIMIZED gives containers
+   [0,1/4] (1 slice), [1/4,3/4] (4 slices), [3/4,1] (2 slices) with exactly these end points as attributes *)
+Example C11_nonvacuous_containers :
+  option_map (fun rc => map (fun c => (option_map this (c_left c), option_map this (c_right c), length (c_slices c))) (snd rc))
+    (extrapolation_grid_obj G_Optimized SV_Romberg CV_Default false
+       [0; q 1 4; q 3 8; q 1 2; q 5 8; q 3 4; q 7 8; 1] [0; 2; 3; 1; 3; 2; 3; 0]%nat)
+  = Some [(Some 0%Q, Some (1 # 4)%Q, 1%nat); (Some (1 # 4)%Q, Some (3 # 4)%Q, 4%nat); (Some (3 # 4)%Q, Some 1%Q, 2%nat)].
+Proof. vm_compute. reflexivity. Qed.
+
+(* ==================================================================================================================
+   EXACTNESS DEGREE 2K+1 FOR EVERY K (no bound; Proofs/RombergAnnihilate.v, RombergEM.v, RombergDegree.v).
+   pw k = x^k;  Ik k u v = (v^(k+1) - u^(k+1)) / (k+1) = int_u^v x^k dx;  trapD f lo w j = composite trapezoidal rule
+   with 2^j panels on [lo, lo+w];  tj w j = (w/2^j)^2;  pev g t = g_1 + g_2 t + ... *)
+From SG Require Import Proofs.RombergAnnihilate Proofs.RombergEM Proofs.RombergDegree.
+
+(* --- the coefficients annihilate the error terms: sum_j c_{m,j} (h_j^e)^l = 0 for l = 1..m, EVERY m, every exponent
+       (c_{m,j} is the Lagrange basis polynomial of the nodes h_j^e at 0; proof by a q-binomial recurrence) *)
+Theorem C11_romberg_coeff_annihilates : forall a b e m l, a <> b -> (1 <= e)%nat -> (1 <= l <= m)%nat ->
+  sumQ (map (fun j => romberg_coefficient a b e m j * (step_width a b j ^ e) ^ l) (seq 0 (S m))) = 0.
+Proof. exact romberg_coeff_annihilates. Qed.
+Print Assumptions C11_romberg_coeff_annihilates.
+(* --- Euler-Maclaurin for monomials on dyadic grids, algebraically: the trapezoidal sums of x^k on [lo, lo+w] are
+       int x^k + g_1 h_j^2 + ... + g_n h_j^(2n) with n <= k/2 and g independent of the level j (EVERY k, interval, j) *)
+Theorem C11_trapezoid_even_expansion : forall k lo w,
+  exists g, (length g <= Nat.div2 k)%nat /\
+            forall j, trapD (pw k) lo w j = Ik k lo (lo + w) + tj w j * pev g (tj w j).
+Proof. exact trap_even_expansion_eq. Qed.
+Print Assumptions C11_trapezoid_even_expansion.
+(* --- the weights of the complete dyadic grid of depth K (RombergTrapezoidalWeights: boundary weight at the ends, inner
+       weight by level) applied to ANY f are the extrapolated trapezoidal sums; they integrate x^k exactly for k <= 2K+1,
+       for EVERY K >= 1, every interval (replaces the bounded vm_compute statements for the grouped variants) *)
+Theorem C11_full_grid_weights_are_extrapolated_sums : forall a b K (f : Qc -> Qc), (1 <= K)%nat ->
+  dotQ (map f ([a] ++ nodes a (b - a) K ++ [b])) (Wlist a b K)
+  = sumQ (map (fun j => romberg_coefficient a b 2 K j * trapD f a (b - a) j) (seq 0 (S K))).
+Proof. exact full_grid_dot. Qed.
+Theorem C11_full_grid_weights_are_factory_weights : forall a b K,
+  Wlist a b K = [trap_boundary_weight a b 2 K]
+                ++ map (fun l => match trap_inner_weight a b 2 l K with Some w => w | None => 0 end) (full_levels K 1)
+                ++ [trap_boundary_weight a b 2 K].
+Proof. exact Wlist_factory_weights. Qed.
+Theorem C11_complete_grid_exact_degree : forall a b m k, a <> b -> (1 <= m)%nat -> (k <= 2 * m + 1)%nat ->
+  dotQ (map (pw k) (complete_grid a b m)) (Wlist a b m) = Ik k a b.
+Proof. exact complete_grid_exact. Qed.
+Print Assumptions C11_full_grid_weights_are_extrapolated_sums.
+Print Assumptions C11_complete_grid_exact_degree.
+(* --- EVERY container of 2^K >= 2 equal adjacent slices - inside ANY adaptive grid - integrates x^k, k <= 2K+1, exactly
+       over its own interval *)
+Theorem C11_grouped_container_exact_degree : forall lo sv K h c cs k,
+  length c = (2 ^ K)%nat -> (1 <= K)%nat -> chain c -> Forall (fun s => sl_width s = h) c ->
+  Forall (fun s => sl_l s < sl_r s) c ->
+  container_final_from lo sv CV_Default c = Some cs -> (k <= 2 * K + 1)%nat ->
+  wpow k cs = Ik k (container_left c) (container_right c).
+Proof. exact multi_container_exact. Qed.
+Print Assumptions C11_grouped_container_exact_degree.
+(* --- the whole pipeline, every grid / grouping / slice version / balancing flag: if every container has at least
+       2^Kmin >= 2 slices, the collected weights integrate x^k exactly for k <= 2*Kmin+1.  On the complete dyadic grid of
+       depth m with GROUPED / GROUPED_OPTIMIZED there is one container of 2^m slices (checked for m <= 7 by the bounded
+       theorems above and at run time), so this is degree 2m+1 for EVERY m for which the code accepts the grid. *)
+Theorem C11_sliced_weights_exact_degree : forall lo g sv force grid levels r Kmin k,
+  extrapolation_grid_from lo g sv CV_Default force grid levels = Some r ->
+  (1 <= Kmin)%nat -> Forall (fun n => (2 ^ Kmin <= n)%nat) (er_container_sizes r) -> (k <= 2 * Kmin + 1)%nat ->
+  wpow k (er_dict r) = Ik k (grid_a r) (grid_b r).
+Proof. exact sliced_weights_exact_degree. Qed.
+(* ... the list returned by get_weights, given the run-time alignment checker (keys of the dictionary = grid points) *)
+Theorem C11_weights_aligned_power_moment : forall r k,
+  map fst (er_dict r) = er_grid r -> dotQ (map (pw k) (er_grid r)) (er_weights r) = wpow k (er_dict r).
+Proof. exact aligned_power_moment. Qed.
+Print Assumptions C11_sliced_weights_exact_degree.
+Print Assumptions C11_weights_aligned_power_moment.
+(* --- UNCONDITIONAL, EVERY m >= 1, every interval a < b, GROUPED and GROUPED_OPTIMIZED, Romberg and trapezoidal slices:
+       the model ACCEPTS the complete dyadic grid of depth m (step-width assertion; every support sequence has m+1 entries;
+       no weight assertion fails), its 2^m slices form ONE container, and the collected weights integrate x^k exactly for
+       k <= 2m+1.  (Forced balancing: below.  UNIT grouping on complete grids: bounded theorems above.) *)
+From SG Require Import Proofs.RombergComplete.
+Theorem C11_complete_grid_grouped_exact_degree : forall lo g sv a b m, a < b -> (1 <= m)%nat -> g <> G_Unit ->
+  exists r, extrapolation_grid_from lo g sv CV_Default false (complete_grid a b m) (complete_levels m) = Some r /\
+            er_grid r = complete_grid a b m /\ er_container_sizes r = [(2 ^ m)%nat] /\
+            forall k, (k <= 2 * m + 1)%nat -> wpow k (er_dict r) = Ik k a b.
+Proof. exact complete_grid_grouped_exact. Qed.
+(* ... set_grid on the complete grid creates all 2^m slices (for EVERY grouping: this is before the containers) *)
+Theorem C11_complete_grid_slices_accepted : forall a b m, a < b -> (1 <= m)%nat ->
+  init_grid_slices (complete_grid a b m) (complete_levels m) = Some (map (cslice a b m) (seq 0 (2 ^ m))).
+Proof. exact complete_init_grid_slices. Qed.
+Theorem C11_complete_grid_support_length : forall (grid : list Qc) m i, (i < 2 ^ m)%nat ->
+  length (support_sequence grid (complete_levels m) i) = S m.
+Proof. exact complete_support_length. Qed.
+Print Assumptions C11_complete_grid_grouped_exact_degree.
+Print Assumptions C11_complete_grid_slices_accepted.
+(* ... forced balancing is the IDENTITY on complete grids of EVERY depth (init_tree builds the complete tree, which is full),
+       so the unconditional theorem holds with and without force_balanced_refinement_tree, for every option combination *)
+From SG Require Import Proofs.RombergForced.
+Theorem C11_complete_grid_forced_identity : forall lo g sv cv a b m, (1 <= m)%nat ->
+  extrapolation_grid_from lo g sv cv true (complete_grid a b m) (complete_levels m)
+  = extrapolation_grid_from lo g sv cv false (complete_grid a b m) (complete_levels m).
+Proof. exact complete_forced_same. Qed.
+Theorem C11_complete_grid_grouped_exact_degree_any_force : forall lo g sv force a b m, a < b -> (1 <= m)%nat -> g <> G_Unit ->
+  exists r, extrapolation_grid_from lo g sv CV_Default force (complete_grid a b m) (complete_levels m) = Some r /\
+            er_grid r = complete_grid a b m /\ er_container_sizes r = [(2 ^ m)%nat] /\
+            forall k, (k <= 2 * m + 1)%nat -> wpow k (er_dict r) = Ik k a b.
+Proof. exact complete_grid_grouped_exact_any_force. Qed.
+Print Assumptions C11_complete_grid_forced_identity.
+Print Assumptions C11_complete_grid_grouped_exact_degree_any_force.
+(* non-vacuity: depth 3 on [-3/4, 5/4], GROUPED_OPTIMIZED with forced balancing: one container of 8 slices, keys aligned *)
+Example C11_nonvacuous_exact_degree :
+  match extrapolation_grid_from 0 G_Optimized SV_Romberg CV_Default true
+          (complete_grid (q (-3) 4) (q 5 4) 3) (complete_levels 3) with
+  | Some r => forallb (fun n => (2 ^ 3 <=? n)%nat) (er_container_sizes r)
+              && Nat.eqb (length (er_container_sizes r)) 1
+              && Nat.eqb (length (er_grid r)) 9
+              && forallb (fun xy => Qc_eqb (fst xy) (snd xy)) (combine (map fst (er_dict r)) (er_grid r))
+  | None => false
+  end = true.
+Proof. vm_compute. reflexivity. Qed.
+
+(* ==================================================================================================================
    SOURCE-DERIVED MODEL (DESIGN.md 0.5).  Gen/ExtrapolationGen.v is regenerated from sparseSpACE/Extrapolation.py by
    harness/translate/py2gallina.py --target extrapolation at every ./setup.sh C11 and ./check C11; the theorems below are
    therefore re-checked against what the code says NOW.  Trusted reading: Python floats are exact rationals (Base/PyNum.v).
